@@ -60,7 +60,11 @@ def run(prop, case, exception_is_violation=False):
         return run_repo_tests(prop)
     contracts.clear()
     before = contracts.STATS['resolve_calls']
-    res = MC.execute(case)
+    contracts.CONTEXT['explicit_h_possible'] = '[H' in MC.describe_case(case)
+    try:
+        res = MC.execute(case)
+    finally:
+        contracts.CONTEXT['explicit_h_possible'] = True
     viol = []
     for r in contracts.take(prop) + contracts.take('HARNESS'):
         viol.append(V(r['clause'], f"{MC.describe_case(case)} :: {r['msg']}"))
